@@ -249,7 +249,7 @@ def main():
             env["VERIF_NSHARD"] = str(nshard)
             rseed = 1 + seed * 1000 + si * 100 + sh
             timeout = st.get("timeout", {}).get(mode, 900 if mode == "quick" else 5400)
-            cmd = [bins[race], "-test.run", st["run"], "-test.timeout", "%ds" % (timeout + 60),
+            cmd = [bins[race], "-test.v", "-test.run", st["run"], "-test.timeout", "%ds" % (timeout + 60),
                    "-rapid.checks=%d" % checks, "-rapid.seed=%d" % rseed,
                    "-rapid.shrinktime=%s" % st.get("shrinktime", "20s"), "-rapid.nofailfile"]
             shards.append(Shard(tag, cmd, env, timeout, checks, st["run"], pkgdir))
